@@ -416,6 +416,19 @@ func loopVarOf(node *ast.FunctionNode) string {
 	return ""
 }
 
+// isNullSafeAccess returns true if the data ref access node is a nullsafe access.
+func isNullSafeAccess(n ast.Node) bool {
+	switch node := n.(type) {
+	case *ast.DataRefIndexNode:
+		return node.NullSafe
+	case *ast.DataRefKeyNode:
+		return node.NullSafe
+	case *ast.DataRefExprNode:
+		return node.NullSafe
+	}
+	return false
+}
+
 func (s *state) visitDataRef(node *ast.DataRefNode) {
 	var expr string
 	if node.Key == "ij" {
@@ -427,7 +440,18 @@ func (s *state) visitDataRef(node *ast.DataRefNode) {
 	}
 
 	// Nullsafe access makes this complicated.
-	// FOO.BAR?.BAZ => (FOO.BAR == null ? null : FOO.BAR.BAZ)
+	// FOO.BAR?.BAZ => ((FOO.BAR == null) ? null : FOO.BAR.BAZ)
+	// (the conditional needs parentheses of its own to be usable as an operand.)
+	var nullsafe = false
+	for _, accessNode := range node.Access {
+		if isNullSafeAccess(accessNode) {
+			nullsafe = true
+		}
+	}
+	if nullsafe {
+		s.js("(")
+		defer s.js(")")
+	}
 	for _, accessNode := range node.Access {
 		switch node := accessNode.(type) {
 		case *ast.DataRefIndexNode:
